@@ -22,7 +22,7 @@ LEVEL_TEXT = ("For each of the 16 operation variants and each step of its exchan
 RULE = ("case = (operation, step of the exchange, fault reply); fault alphabet {EOF, one empty read while the stream goes on, the request echoed back, NUL bytes only, prefix of length 1..len-1, pattern bytes "
         "of length 1..1024, single corrupted field}; non-trivial = fault other than EOF, or EOF at a step > 1; distinct by "
         "(kind, step, fault)."
-        ' Cases optionally run 0..3 good operations on the same connection first, carry a virtual clock up to 2^32 s, and the fault alphabet includes the request echoed back. slow-device: every step of every state query answered correctly but 6 s .. 25 h late (harness-owned event-loop clock), with and without retries; repeated-empty-login: 70 (thorough 300) consecutive empty login replies for one device id in one process, for every state query and type-2 operation.')
+        ' Cases optionally run 0..3 good operations on the same connection first, carry a virtual clock up to 2^32 s, and the fault alphabet includes the request echoed back. slow-device: every step of every state query answered correctly but 6 s .. 25 h late (harness-owned event-loop clock), with and without retries; Cases optionally let the connection sit idle for 16 s .. 1 h (harness-owned clocks, which the monotonic clock seen by the library follows) before the faulty exchange; frames on a connection the client opened on its own are counted too. repeated-empty-login: 70 (thorough 300) consecutive empty login replies for one device id in one process, for every state query and type-2 operation.')
 ASSUMPTIONS = [
     "an empty reply is modelled as the device half-closing the connection (reader.read returns b'' only at EOF); later reads are empty too",
     "connection resets are outside the fault alphabet",
@@ -104,7 +104,11 @@ async def exchange(case):
             if st_ != "ok":
                 return "skip", None, [], [], None
         cl.conn.script.clear()
+        if case.get("idle_before"):
+            # the connection sits unused for a while (harness-owned clocks: loop time and the library's monotonic clock)
+            await net.idle(case["idle_before"])
         nbefore = len(cl.conn.frames)
+        nconns = len(dev.conns)
         script = ops.good_script(kind, a, case.get("session", "0a0b0c0d"), salt=case.get("salt", 1))
         rk = reply_kind(kind, step)
         data = apply_fault(script[step]["data"], case["fault"], rk)
@@ -135,6 +139,8 @@ async def exchange(case):
                 return "skip", None, [], [], None       # the client never made that read(): nothing was injected
         sent = list(cl.conn.sent)
         frames = list(cl.conn.frames[nbefore:])
+        for other in dev.conns[nconns:]:
+            frames += list(other.frames)          # frames written on a connection the client opened on its own count too
         # the caller tries again on the same object (state queries only): whatever the connection is worth by now, the
         # retry must again end in a response or a RuntimeError
         for _ in range(case.get("retries", 0)):
@@ -326,6 +332,7 @@ def cases_grid(tier):
                     out.append({"kind": kind, "args": a, "step": step, "fault": {"type": "zeros", "len": zl}})
                 pre = ["get_state", "control_on"] if ops.api_type(kind) == 1 else ["get_shutter_state", "set_position"]
                 out.append({"kind": kind, "args": a, "step": step, "fault": {"type": "eof"}, "pre": pre[:1], "retries": 2})
+                out.append({"kind": kind, "args": a, "step": step, "fault": {"type": "eof"}, "pre": pre[:1], "idle_before": 20 + 3600 * (step % 2)})
                 out.append({"kind": kind, "args": a, "step": step, "fault": {"type": "empty-read"}, "pre": pre})
                 rk = reply_kind(kind, step)
                 n = len(script[step]["data"])
@@ -356,7 +363,8 @@ def strat_garbage():
         pre = st.one_of(st.just([]), st.lists(st.sampled_from(same), min_size=1, max_size=3))
         return st.builds(lambda a, step, f, salt, sess, pr, ts: _fit(dict({"kind": kind, "args": a, "step": step, "fault": f, "salt": salt,
                                                                         "session": sess, "ts": ts, "retries": salt % 3},
-                                                                       **({"pre": pr} if pr else {}))),
+                                                                       **({"pre": pr} if pr else {}),
+                                                                       **({"idle_before": [16, 61, 3601][salt % 3]} if salt % 4 == 0 else {}))),
                          gen.op_args(kind).map(c03._resolvable), st.integers(0, nsteps(kind) - 1), fault, st.integers(1, 100), gen.sessions, pre,
                          gen.timestamps)
     return st.sampled_from(ops.KINDS).flatmap(for_kind)
